@@ -300,3 +300,32 @@ package lua
 //@ requires 0 <= L.currentFrame.Base && L.currentFrame.Base < lb(L)
 //@ cut@"nvarargs := nargs - np" the vararg relocation of the inlined initCallFrame is not verified yet
 //@ modifies everything
+
+// ---------------------------------------------------------------------------
+// Result adjustment on return (C02/C10): n results wanted, b-1 produced (b == 0: everything from start up to top).
+// ---------------------------------------------------------------------------
+
+//@ define retAvail(L *LState, start int, b int) int = ite(b >= 1, b - 1, top(L) - start)
+
+//@ func copyReturnValues [C02 C10]
+//@ requires L != nil && L.reg != nil && Inv_reg(L.reg) && 0 <= regv && (regv <= start || regv >= top(L)) && 0 <= start && 0 <= n && 0 <= b
+//@ requires b > 1 ==> start + b - 1 <= top(L)
+//@ requires b == 0 ==> start <= top(L)
+//@ ensures  Inv_reg(L.reg) && L.reg == old(L.reg) && top(L) == regv + n
+//@ ensures  "results": forall k int :: regv <= k && k < regv + n ==> L.reg.array[k] == ite(k - regv < old(retAvail(L, start, b)), old(L.reg.array[start + k - regv]), LNil)
+//@ ensures  "below": forall k int :: 0 <= k && k < regv && k < old(top(L)) ==> L.reg.array[k] == old(L.reg.array[k])
+//@ modifies L.reg.array, L.reg.top, L.reg.array[*]
+
+//@ trusted switchToParentThread [C06]
+//@ assume switchToParentThread: contract of C06, to be verified there
+//@ modifies everything
+
+// OP_RETURN: thin contract (no implicit Go panic; the inlined closeUpvalues and copyReturnValues/CopyRange/FillNil
+// copies satisfy the contracts of their source functions: results land at ReturnBase, padded or truncated to NRet).
+//@ func jumpTable[OP_RETURN] [C02 C03 C07 C10]
+//@ requires Frame(L) && L.stack != nil && $inv(L.stack) && $sp(L.stack) >= 1 && regsValid(L) && opA(inst) < nreg(L) && uvsValid(L)
+//@ requires opB(inst) > 1 ==> lb(L) + opA(inst) + opB(inst) - 1 <= top(L)
+//@ requires opB(inst) == 0 ==> lb(L) + opA(inst) <= top(L)
+//@ requires 0 <= L.currentFrame.ReturnBase && L.currentFrame.ReturnBase <= lb(L) + opA(inst) && L.currentFrame.NRet >= -1
+//@ requires forall i int :: 0 <= i && i < $sp(L.stack) ==> $frame(L.stack, i) != nil && $frame(L.stack, i).Fn != nil
+//@ modifies everything
